@@ -91,7 +91,7 @@ ASSUMPTIONS = [
 REQUIRED = ["terminations", "terminations/local", "terminations/remote", "terminations/disrupt",
             "terminations/ioerror-deact-noop", "terminations/ioerror-deact-raises", "blocked_at_term_calls",
             "after_calls_old", "after_calls_new", "service_threads_started", "service_threads_exited",
-            "quiescence_verdicts", "directed_holds_reached_before_termination", "cases_mac_dep", "cases_mac_fake",
+            "quiescence_waits", "directed_holds_reached_before_termination", "cases_mac_dep", "cases_mac_fake",
             "cases_mac_udp"]
 
 DLC = nfc.llcp.DATA_LINK_CONNECTION
